@@ -35,6 +35,7 @@ PlaceSane == v.kind = "place" =>
     /\ start >= lim /\ start >= FirstRec(h)
     /\ end = start + s /\ s >= RecHdr + v.x[3] /\ s < RecHdr + v.x[3] + Unit
     /\ Fits(start, s)
+    /\ PlaceRel(h, v.x[2], v.x[3], start, end)    \* the documented allocator meets what the layout demands
     /\ IsLeastFit(lim, start, s)               \* nothing is wasted
     /\ start - lim < s + 2 * Unit
 HashSane  == v.kind = "hash" => v.y[1] \in 0..(NumHash - 1)
